@@ -449,10 +449,8 @@ func execute1(t *testing.T, s Script, leakScan bool, budget time.Duration) Trace
 		}
 		close(quit)
 		helpers.Wait()
-		if d.cancel != nil {
-			d.cancel()
-		}
 		if leakScan {
+			// before the context is cancelled: a terminated discipline must not depend on that
 			bubble.Wait()
 			after := bubble.LibGoroutines()
 			for id, fr := range after {
@@ -460,6 +458,9 @@ func execute1(t *testing.T, s Script, leakScan bool, budget time.Duration) Trace
 					tr.Leaked = append(tr.Leaked, fr)
 				}
 			}
+		}
+		if d.cancel != nil {
+			d.cancel()
 		}
 	})
 	if res.Spin {
